@@ -110,11 +110,69 @@ func project(sp *spec.Spec, ut *spec.UserType, view string, val any, depth int) 
 		if a.HasDef && vtree.IsZeroLeaf(av) {
 			exp[a.Name] = vtree.Alt(av, a.Default)
 		} else {
-			exp[a.Name] = Expect(sp, a.Type, av, nil, nil, depth+1)
+			exp[a.Name] = deepProject(sp, a.Type, av, depth+1)
 		}
 		w[a.Name] = true
 	}
 	return exp, w
+}
+
+// deepProject is Expect for a value whose type is not a result type itself but may hold result types further down
+// (inside inline objects, plain user types, arrays, maps): those are rendered with the view their attribute names,
+// else with their default view.
+func deepProject(sp *spec.Spec, t *spec.Type, val any, depth int) any {
+	base := Expect(sp, t, val, nil, nil, depth)
+	rt, _ := sp.Resolve(t)
+	if rt == nil || depth > 20 || val == nil {
+		return base
+	}
+	sub := func(a *spec.Attr, v any) any {
+		et := a.Type
+		if _, nut := sp.Resolve(et); nut != nil && nut.Kind == "result" && et.Kind == spec.Ref {
+			nv := "default"
+			if a.View != "" {
+				nv = a.View
+			}
+			e, _ := project(sp, nut, nv, v, depth+1)
+			return e
+		}
+		return deepProject(sp, et, v, depth+1)
+	}
+	switch rt.Kind {
+	case spec.Object:
+		so, _ := val.(map[string]any)
+		bo, _ := base.(map[string]any)
+		if so == nil || bo == nil {
+			return base
+		}
+		for _, a := range rt.Attrs {
+			if sv, ok := so[a.Name]; ok && sv != nil && !(a.HasDef && vtree.IsZeroLeaf(sv)) {
+				bo[a.Name] = sub(a, sv)
+			}
+		}
+		return bo
+	case spec.Array:
+		sa, _ := val.([]any)
+		ba, _ := base.([]any)
+		if len(sa) != len(ba) {
+			return base
+		}
+		for i := range sa {
+			ba[i] = sub(rt.Elem, sa[i])
+		}
+		return ba
+	case spec.Map:
+		sm, ok := vtree.IsMap(val)
+		bm, ok2 := vtree.IsMap(base)
+		if !ok || !ok2 {
+			return base
+		}
+		for k, e := range sm {
+			bm[k] = sub(rt.Elem, e)
+		}
+		return vtree.MkMap(bm)
+	}
+	return base
 }
 
 // wireKeys compares the JSON members of a body with the reference member set.
@@ -334,6 +392,42 @@ func requiredObjectOutsideView(sp *spec.Spec, ut *spec.UserType, view string, de
 			if requiredObjectOutsideView(sp, aut, nv, depth+1) {
 				return true
 			}
+			continue
+		}
+		// result types further down (inside inline objects, plain user types, collections) are rendered
+		// with the view their attribute names, else with their default view
+		if deepRequiredOutside(sp, a.Type, depth+1) {
+			return true
+		}
+	}
+	return false
+}
+
+func deepRequiredOutside(sp *spec.Spec, t *spec.Type, depth int) bool {
+	rt, _ := sp.Resolve(t)
+	if rt == nil || depth > 6 {
+		return false
+	}
+	check := func(a *spec.Attr) bool {
+		if _, nut := sp.Resolve(a.Type); nut != nil && nut.Kind == "result" && a.Type.Kind == spec.Ref {
+			nv := "default"
+			if a.View != "" {
+				nv = a.View
+			}
+			return requiredObjectOutsideView(sp, nut, nv, depth+1)
+		}
+		return deepRequiredOutside(sp, a.Type, depth+1)
+	}
+	switch rt.Kind {
+	case spec.Object:
+		for _, a := range rt.Attrs {
+			if check(a) {
+				return true
+			}
+		}
+	case spec.Array, spec.Map:
+		if rt.Elem != nil {
+			return check(rt.Elem)
 		}
 	}
 	return false
